@@ -60,6 +60,30 @@ spec fn constraint_of(s: Seq<char>) -> Option<(Op, usize)> {
     }
 }
 
+/// The operator tokens are pairwise distinct in their first character except `<`/`<=` and `>`/`>=`:
+/// a text cannot start with two different two-character operators, nor with `==` and `<` or `>`.
+/// (Makes the specification independent of the order in which exclusive alternatives are tried.)
+proof fn lemma_ops_exclusive(t: Seq<char>)
+    ensures
+        !(strip_prefix_spec(t, "<="@) is Some && strip_prefix_spec(t, ">="@) is Some),
+        !(strip_prefix_spec(t, "<="@) is Some && strip_prefix_spec(t, "=="@) is Some),
+        !(strip_prefix_spec(t, ">="@) is Some && strip_prefix_spec(t, "=="@) is Some),
+        !(strip_prefix_spec(t, "=="@) is Some && strip_prefix_spec(t, seq!['<']) is Some),
+        !(strip_prefix_spec(t, "=="@) is Some && strip_prefix_spec(t, seq!['>']) is Some),
+        !(strip_prefix_spec(t, seq!['<']) is Some && strip_prefix_spec(t, seq!['>']) is Some),
+        strip_prefix_spec(t, "<="@) is Some ==> strip_prefix_spec(t, seq!['<']) is Some,
+        strip_prefix_spec(t, ">="@) is Some ==> strip_prefix_spec(t, seq!['>']) is Some,
+{
+    reveal_strlit("<=");
+    reveal_strlit(">=");
+    reveal_strlit("==");
+    if strip_prefix_spec(t, "<="@) is Some { assert(t.subrange(0, 2)[0] == '<'); assert(t.subrange(0, 1) =~= seq!['<']); }
+    if strip_prefix_spec(t, ">="@) is Some { assert(t.subrange(0, 2)[0] == '>'); assert(t.subrange(0, 1) =~= seq!['>']); }
+    if strip_prefix_spec(t, "=="@) is Some { assert(t.subrange(0, 2)[0] == '='); }
+    if strip_prefix_spec(t, seq!['<']) is Some { assert(t.subrange(0, 1)[0] == '<'); }
+    if strip_prefix_spec(t, seq!['>']) is Some { assert(t.subrange(0, 1)[0] == '>'); }
+}
+
 impl Op {
 //@unit id=V4a file=src/validators/line_count.rs fn=<<impl Op::as_str>> ret=r
 //@contract
@@ -73,6 +97,8 @@ impl Op {
         (r matches Ok(p) ==> constraint_of(s@) == Some(p)), // [V4p.post.ok_is_spec]
         (r is Err ==> constraint_of(s@) is None), // [V4p.post.malformed_is_err]
 //@macro rule=E1 name=anyhow to=<<anyhow::verif_err()>>
+//@edit rule=ghost before=<<let (op, rest)>> optional=1
+    proof { lemma_ops_exclusive(trim_spec(s@)); }
 //@chain rule=E13 find=<<.strip_prefix(>> to=verif_strip_prefix_str argkind=str count=all optional=1
 //@chain rule=E13 find=<<.strip_prefix(>> to=verif_strip_prefix_char argkind=char count=all optional=1
 //@edit rule=E13 find=<<$a.parse()>> count=all optional=1
